@@ -24,11 +24,7 @@
             6  the dict after construction is not empty
             7  Spec/NpAssign.v <> what the real NumPy shadow array did at this step (the Spec or
                the harness is wrong; says nothing about the implementation)
-     clause 0 none (inside the proved domain)   3 value_ndim   4 fancy_in_range   5 fancy_nonempty
-            6 fancy_value   7 bool_mask   8 bool_mask read on a 1-d array (True/False are used
-            as the integers 1/0: wrong values, no error)   10 empty_tuple_key
-            11 a NumPy integer scalar that does not fit the dtype (np.asarray wraps, NumPy raises)
-            12 None in an assignment key (judged against the model only)   13 index array in a basic key *)
+     clause 0 none (inside the proved domain); the open clauses are listed at set_clause *)
 From Coq Require Import ZArith List Bool.
 From Verif Require Import Py PyExt G_slicing G_dok PySlice Shape Slicing COO NpIndex CooIndex Convert DokGetitem
      NpAssign DOK DOKExt Judge.
@@ -73,30 +69,29 @@ Definition keys_ok (sh : list Z) (st : jstate) : bool :=
 Definition has_newaxis (k : key) : bool :=
   match k with KIndex ix => negb (index_no_newaxis ix) | _ => false end.
 
+(* the clauses still open (everything else NumPy accepts is inside the proved domain):
+     7  a single n-d boolean array as key        14  integer-list / mask key with a value of ndim > 1
+     15 a 0-d view as target with a one-element array value
+     16 a one-element array assigned to one element of a BOOLEAN DOK (NumPy takes its truth value)
+     11 a NumPy integer scalar that does not fit a signed dtype (NumPy raises: outside the property)
+     12 None in an assignment key (judged against the model only)   13 index array in a basic key *)
 Definition set_clause (dt : dtype) (sh : list Z) (k : key) (raw : rawval) (v : arr Z) : Z :=
-  if negb (npint_fits dt (key_adv k) raw) then 11 else
+  if negb (npint_fits dt (key_adv k) raw) then 11
+  else if negb (np_value_id dt sh k (a_shape v)) then 16 else
   match k with
-  | KBasic es =>
-    if negb (nonempty_key es) then 10
-    else if negb (value_ndim_clause sh es v) then 3 else 0
-  | KFancy ls =>
-    if negb (fancy_in_range ls sh) then 4
-    else if negb (fancy_nonempty ls) then 5
-    else if negb (fancy_value_clause ls v) then 6 else 0
-  | KMask _ => 7
+  | KBasic _ => 0
+  | KFancy _ => if negb (fancy_value_clause v) then 14 else 0
+  | KMask _ => match sh with [_] => if negb (fancy_value_clause v) then 14 else 0 | _ => 7 end
   | KIndex ix =>
-    if negb (index_nonempty ix) then 10
-    else if negb (index_no_newaxis ix) then 12
+    if negb (index_no_newaxis ix) then 12
     else if negb (index_no_arrays ix) then 13
-    else if negb (index_value_ndim_clause sh ix v) then 3 else 0
+    else if negb (view0d_clause sh ix v) then 15 else 0
   end.
 
 Definition get_clause (sh : list Z) (k : key) : Z :=
   match k with
-  | KBasic es => if negb (nonempty_key es) then 10 else 0
-  | KFancy ls => if negb (fancy_in_range ls sh) then 4 else 0
-  | KMask _ => match sh with [_] => 8 | _ => 7 end
-  | KIndex ix => if negb (index_nonempty ix) then 10 else 0
+  | KMask _ => match sh with [_] => 0 | _ => 7 end
+  | _ => 0
   end.
 
 (* reads go through the REAL path model (Model/DokGetitem.v: COO.from_iter, the COO indexing
